@@ -101,10 +101,17 @@ def rewrite_hash_imports(path):
 
 # files whose straight-line `async fn`s are lowered to plain functions (see deasync)
 DEASYNC = ["consensus/src/core.rs", "consensus/src/synchronizer.rs", "consensus/src/messages.rs", "consensus/src/mempool.rs",
-           "mempool/src/batch_maker.rs", "consensus/src/helper.rs", "mempool/src/helper.rs", "consensus/src/proposer.rs"]
+           "mempool/src/batch_maker.rs", "consensus/src/helper.rs", "mempool/src/helper.rs", "consensus/src/proposer.rs",
+           "mempool/src/quorum_waiter.rs"]
 # run loops of the shape `loop { tokio::select! { .. } .. }` whose handlers never legitimately suspend: lowered with the
 # synchronous select (shims/tokio select_now!): the function returns when no branch is ready
-LOWER_LOOPS = {("mempool/src/batch_maker.rs", "run")}
+LOWER_LOOPS = {("mempool/src/batch_maker.rs", "run"), ("mempool/src/quorum_waiter.rs", "run")}
+# async fns that must keep genuine suspension although they contain no select! (they wait for a peer's acknowledgement)
+KEEP_ASYNC = {("mempool/src/quorum_waiter.rs", "waiter")}
+# Inside a lowered run loop, these awaits mean "wait for the next acknowledgement"; lowered they become "take the next
+# acknowledgement that is already there, else stop waiting" (vnow_or_none): exact for schedules in which every
+# acknowledgement that will ever arrive has arrived before the step, which is what the C12 harnesses use.
+AWAIT_OR_NONE = {("mempool/src/quorum_waiter.rs", "run"): ["wait_for_quorum.next().await"]}
 ASYNC_FN_RE = re.compile(r"\basync fn\s+(\w+)")
 
 
@@ -154,8 +161,15 @@ def deasync(path, rel=""):
             i += 1
         j = _match_brace(s, i)
         sig, body = s[m.start():i], s[i + 1:j]
+        if (rel, m.group(1)) in KEEP_ASYNC:
+            kept.append(m.group(1))
+            out.append(s[pos:j + 1])
+            pos = j + 1
+            continue
         if (rel, m.group(1)) in LOWER_LOOPS:
-            body = body.replace("tokio::select!", "tokio::select_now!")
+            body = body.replace("tokio::select!", "tokio::select_now!", 1)  # the outer select only
+            for pat in AWAIT_OR_NONE.get((rel, m.group(1)), []):
+                body = body.replace(pat, pat[:-len(".await")] + ".vnow_or_none()")
         elif re.search(r"select!|spawn\(|\basync\b", body):
             kept.append(m.group(1))
             out.append(s[pos:j + 1])
@@ -171,7 +185,7 @@ def deasync(path, rel=""):
             sig2 = sig2 + " -> ::tokio::Ready<()> "
         body2 = body.replace(".await", ".vnow()")
         out.append(s[pos:m.start()])
-        out.append("%s{ #[allow(unused_imports)] use ::tokio::VNow as _; ::tokio::Ready((move || -> %s {%s})()) }" % (sig2, ret, body2))
+        out.append("%s{ #[allow(unused_imports)] use ::tokio::{VNow as _, VNowOrNone as _}; ::tokio::Ready((move || -> %s {%s})()) }" % (sig2, ret, body2))
         lowered.append(m.group(1))
         pos = j + 1
     open(path, "w").write("".join(out).replace("#[async_recursion]", ""))
